@@ -298,6 +298,10 @@ def gen_prep_case(rng):
     if rng.random() < 0.3:
         # the metadata declares a fill value that also occurs as an ordinary value of the payload (values are 1, 2, …)
         case["fill"] = [rng.choice(["_FillValue", "missing_value"]), float(rng.randint(1, 3))]
+    if rng.random() < 0.25 and kind == "partial":
+        # the same mask array was used just before through another info whose grid differs in the flattening order only
+        # (one domain mask for two models; `copy_with(grid=…)` shares the array): each `prepare` applies the mask of *its* info
+        case["shared_before"] = True
     return case
 
 
@@ -331,6 +335,13 @@ def run_prep(case):
     try:
         extra = {case["fill"][0]: case["fill"][1]} if case.get("fill") else {}
         info = fm.Info(time=None, grid=g, units="m", mask=py_mask(case["mask"]), **extra)
+        if case.get("shared_before"):
+            spec2 = dict(case["grid"], order="C" if case["grid"]["order"] == "F" else "F")
+            g2 = gu.build_grid(spec2)
+            try:
+                prepare(np.arange(int(np.prod(g2.data_shape)), dtype=float) + 1, info.copy_with(grid=g2))
+            except Exception:  # noqa
+                pass
         out["r"] = prepare(x, info)
     except Exception as e:  # noqa
         out["err"] = err_class(e)
